@@ -869,21 +869,21 @@ FP_CANARY = ('last cell decided by x == xmax instead of span == ncells', 'cuf', 
 def configs(tier):
     c1, c2 = [], []
     if tier == 'quick':
-        degs, fams, cells = [1, 2, 3, 4, 5], ['uniform', 'graded', 'irregular'], {1: [1, 3], 2: [3], 3: [4], 4: [5], 5: [6]}
+        degs, fams, cells = [1, 2, 3, 4, 5], ['uniform', 'graded', 'irregular'], {1: [1, 3], 2: [2, 3], 3: [3, 4], 4: [4, 5], 5: [5, 6]}
     else:
         degs = list(range(1, 11))
         fams = ['uniform', 'graded', 'alternating', 'geometric', 'irregular']
-        cells = {d: [1, 2, 3, d + 1, 8] for d in degs}
+        cells = {d: [1, 2, 3, d, d + 1, 8] for d in degs}
     for d in degs:
         for fam in fams:
             for n in sorted(set(cells[d])):
                 for per in (False, True):
-                    if per and n <= d:
+                    if per and n < d:            # make_knots admits periodic spaces with ncells >= degree
                         continue
                     c1.append((d, per, fam, n, 'nu', None))
-    for n in ([1, 2, 5] if tier == 'quick' else [1, 2, 3, 4, 6, 8]):
+    for n in ([1, 2, 3, 5] if tier == 'quick' else [1, 2, 3, 4, 6, 8]):
         for per in (False, True):
-            if per and n <= 3:
+            if per and n < 3:
                 continue
             c1.append((3, per, 'uniform', n, 'cu', None))
     # 2-D
